@@ -37,7 +37,14 @@ ASSUMPTIONS = [
     'zone-aware starts are bumped by m/q/y too and must keep their zone with the oracle\'s wall time (left out only with PV_C09_EXCLUDE_FIXED=1): before finding F37 was fixed in /repo the month-based units rebuilt the date from year / month / day and returned a naive datetime (replay replays/C10/F37-*.json)',
     'results may lie outside 1900-2300 (a start within 90 days of either end of the cycle bumped outwards, 1 start in 15 lies there): the statement quantifies over START days, the library computes rather than tabulates, '
     'so the plain datetime oracle value is demanded there as well (class result_outside_cycle)',
-    'observation through dt_bump(t, bump), dt_bump(t, *bumps), dt(t, bump), dt(t, *bumps); dt(bump) "relative to today" is never generated (it reads the wall clock)',
+    'observation through dt_bump(t, bump), dt_bump(t, *bumps), dt(t, bump), dt(t, *bumps), and (sub-check today) through the one-argument dt(bump), the third way of observing the anchors name: the bump is applied to TODAY',
+    'today: dt(bump) reads the wall clock, so the harness reads datetime.datetime.now() right before and right after the call and accepts the left fold from midnight of EITHER reading\'s date (they differ only when midnight '
+    'passes in between); "today" is taken to be midnight of the local date (the dt docstring: today = dt(0), dt("-10b") == today - 14 * day), which is also what puts the m/q/y parts inside the claimed domain; only the tenor grammar and '
+    'the arithmetic are judged, never the clock value; classes that depend on the day the check runs on (weekend start, month overflow, boundary-day start) carry no floor there. The bump is a tenor string of 1-3 parts in every spelling '
+    'of the other sub-checks (inner "+" / "-" signs, upper case, zero padding), a python int in [-60, 60] (documented: dt(-3) == today - 3 * day) or a timedelta / pandas Timedelta; NOT generated: named tenors (dt("spot") is '
+    'read as a date string: the one-argument form tells tenors from dates by their leading <count><unit> and the names are only documented for dt_bump), numpy ints (a lone number is read by dt\'s number reader - the subject of C04 - '
+    'which refuses numpy ints), several arguments without a start (dt(tenor, x) reads year, month), the keywords tzinfo= / none=',
+    'several tenor strings as separate arguments (or in the one list), each of them itself a one- or two-part tenor ("1y-3m", "2d"): half of the three-part cases of the multi / list forms of sub-check compound; the parts of all arguments are applied left to right',
     'n in [-60, 60] for every part; in the composition law a, b have the same sign and |a+b| <= 60 so that all three bumps are inside the quantifier',
     'm/q/y parts are only applied when the running time of day is midnight (the statement claims them at midnight only), also inside compound tenors: '
     'tenors holding an m/q/y part start at midnight, and an h/n/s part in front of a later m/q/y part is a whole number of days (24h/48h) or is replaced by a day-based unit',
@@ -905,6 +912,7 @@ def _valid(tod, parts):
 
 HOWS = ['compound', 'compound', 'compound', 'dt', 'multi', 'dt_multi', 'mixed', 'dt_mixed', 'list', 'dt_list', 'list_mixed', 'dt_list_mixed']
 MIXED = ('mixed', 'dt_mixed', 'list_mixed', 'dt_list_mixed')      # bumps of several raw types: as separate arguments or inside ONE list
+GROUPABLE = ('multi', 'dt_multi', 'list', 'dt_list')               # tenor strings as separate arguments / list members: spec['group'] = g joins parts[:g] and parts[g:] into two tenors
 
 
 @st.composite
@@ -948,8 +956,16 @@ def _compound_case(draw):
     if not any(p[1] in MONTHS for p in parts):
         sib = draw(_sibling(tod))
     raw = draw(_raw(tod))
-    return dict(t=[draw(_ordinal), tod[0], tod[1]], parts=parts, api=how, kinds=kinds, sib=sib, raw=raw,
+    spec = dict(t=[draw(_ordinal), tod[0], tod[1]], parts=parts, api=how, kinds=kinds, sib=sib, raw=raw,
                 tz=draw(_tz(raw, INCLUDE_AWARE_MONTH or not any(p[1] in MONTHS for p in parts))))
+    # several tenor STRINGS as separate arguments / list members, one of them itself a two-part tenor: '1y-3m', '2d' or '1y', '-3m2d'
+    if how in GROUPABLE and k == 3 and draw(st.sampled_from([True, False])):
+        spec['group'] = draw(st.sampled_from([1, 2]))
+        # in half of these the later part of the two-part argument carries its own sign, by construction
+        j = 1 if spec['group'] == 2 else 2
+        if draw(st.booleans()) and not fmt(*parts[j])[0] in '+-':
+            parts[j][2] |= 1
+    return spec
 
 
 def _as_object(part, kind):
@@ -966,6 +982,15 @@ def _as_object(part, kind):
         import pandas as pd
         return pd.Timedelta(n * FIXED[unit])
     return fmt(n, unit, form)
+
+
+def _grouped(parts, g):
+    """the parts as tenor strings: one string per part, or (g given) the two tenors parts[:g], parts[g:]"""
+    if g is None:
+        return [fmt(*q) for q in parts]
+    if not 0 < g < len(parts):
+        raise HarnessError('cannot split %i parts at %r' % (len(parts), g))
+    return [fmt_parts(parts[:g]), fmt_parts(parts[g:])]
 
 
 def _same_objects(a, b):
@@ -998,15 +1023,18 @@ def run_compound(spec):
     if how in ('compound', 'dt'):
         bumps = [s]
     elif how in ('multi', 'dt_multi'):
-        bumps = [fmt(*q) for q in parts]
+        bumps = _grouped(parts, spec.get('group'))
     elif how in ('mixed', 'dt_mixed'):
         bumps = [_as_object(q, kd) for q, kd in zip(parts, spec['kinds'])]
     elif how in ('list_mixed', 'dt_list_mixed'):
         given = [_as_object(q, kd) for q, kd in zip(parts, spec['kinds'])]
         bumps = [given]                     # ONE argument that is a list of bumps of several raw types
     else:
-        given = [fmt(*q) for q in parts]
+        given = _grouped(parts, spec.get('group'))
         bumps = [given]                     # ONE argument that is a list of bumps
+    grouped = spec.get('group') is not None
+    if grouped and how not in GROUPABLE:
+        raise HarnessError('grouped tenors are spelled through the multi / list forms only')
     snapshot = list(given) if given is not None else None
     objects = given if given is not None else bumps
     loose = bool(raw) or any(type(b).__name__ == 'Timedelta' for b in objects)
@@ -1028,7 +1056,14 @@ def run_compound(spec):
     t = t0
     if any(type(b).__name__ == 'Timedelta' for b in objects):
         cls.append('pandas_timedelta')
-    as_text = [True] * len(parts) if how in ('compound', 'dt') else [isinstance(b, str) for b in objects]
+    as_text = [True] * len(parts) if how in ('compound', 'dt') or grouped else [isinstance(b, str) for b in objects]
+    if grouped:
+        cls.append('grouped_tenor_args')
+        g = spec['group']
+        if fmt(*parts[1 if g == 2 else 2])[0] in '+-':
+            cls.append('grouped_tenor_inner_sign')          # the two-part argument's later part carries its own sign: '1y-3m', '2d' / '1y', '2d+3b'
+        if given is not None:
+            cls.append('grouped_tenors_in_list')
     if any(q[2] & 4 for q, txt in zip(parts, as_text) if txt):
         cls.append('zero_padded')
     if len(signs) == 2:
@@ -1314,6 +1349,128 @@ def _show(api, t, args, kw):
     return '%s(%s)' % (api, ', '.join([repr(t)] + [repr(a) for a in args] + ['%s=%r' % kv for kv in sorted(kw.items())]))
 
 
+# ============================================================================= 11. one argument: dt(bump) applies the bump to TODAY
+
+@st.composite
+def _today_case(draw):
+    """dt(bump) with nothing else: a tenor string of 1-3 parts (nine cases of eleven), a python int or a timedelta. Today is midnight, so the
+    tenor may hold m/q/y parts; as everywhere an h/n/s part in front of a later m/q/y part is a whole number of days or replaced"""
+    kind = draw(st.sampled_from(['tenor'] * 9 + ['int', 'td']))
+    if kind == 'int':
+        return dict(bump=['int', draw(_n)])
+    if kind == 'td':
+        bump = ['td', draw(st.integers(-NMAX, NMAX)), draw(st.one_of(st.just(0), st.integers(-86399, 86399))), draw(st.sampled_from([0, 0, 1, -1, 500000, 1001]))]
+        if draw(st.integers(0, 3)) == 0:
+            bump.append('pd')
+        return dict(bump=bump)
+    k = draw(st.sampled_from([1, 2, 2, 2, 3, 3, 3, 3]))
+    units = [draw(st.sampled_from(ALL_UNITS)) for _ in range(k)]
+    months = [i for i, u in enumerate(units) if u in MONTHS]
+    last_month = months[-1] if months else -1
+    parts = []
+    for i, u in enumerate(units):
+        if u in 'ns' and i < last_month:
+            u = draw(st.sampled_from('bdwmqy'))
+        n = draw(st.sampled_from(H_DAYS)) if (u == 'h' and i < last_month) else draw(_n)
+        parts.append([n, u, draw(_form)])
+    if k > 1 and draw(st.sampled_from([True] + [False] * 9)):
+        parts[draw(st.integers(0, k - 1))][0] = 0                 # a zero part
+    if k > 1 and draw(st.sampled_from([True] + [False] * 5)):
+        j = draw(st.integers(1, k - 1))                           # a later part with an explicit '+'
+        if parts[j][0] >= 0:
+            parts[j][2] |= 1
+    return dict(bump=['tenor', parts])
+
+
+def _midnight(now):
+    return datetime.datetime(now.year, now.month, now.day)
+
+
+def run_today(spec):
+    _zone({})
+    import pyg_base
+    bump = spec['bump']
+    loose = False
+    if bump[0] == 'tenor':
+        parts = bump[1]
+        if not _valid([0, 0], parts):
+            raise HarnessError('month-based part applied off midnight: outside the claimed domain')
+        arg = fmt_parts(parts)
+        why = 'parts applied left to right from today: %s' % ' then '.join('%+i%s' % (q[0], q[1]) for q in parts)
+    elif bump[0] == 'int':
+        parts, arg, why = [[bump[1], 'd', 0]], bump[1], 'today plus exactly that many days'
+    else:
+        arg, _, delta = _build_fixed(bump)
+        parts, why, loose = None, 'today plus exactly %r' % (delta,), len(bump) > 4
+    # the library reads the clock somewhere inside the call: bracket it by two readings of our own
+    before = datetime.datetime.now()
+    try:
+        r = call('dt', pyg_base.dt, arg)
+    except Violation as v:
+        raise Violation('dt(%r) [one argument: the bump is applied to today, %s]: %s' % (arg, _midnight(before).date(), v))
+    after = datetime.datetime.now()
+    todays = [_midnight(before)] + ([_midnight(after)] if _midnight(after) != _midnight(before) else [])
+    for t0 in todays:
+        if not T_LO <= t0 < T_HI:
+            raise HarnessError('the clock of this machine reads %r: outside the claimed range of start days' % t0)
+    seen = set()
+    exps = []
+    for t0 in todays:
+        if parts is None:
+            exps.append(t0 + delta)
+        else:
+            e, s = _fold(t0, parts)
+            exps.append(e)
+            seen |= s
+    if not (_is_dt(r, loose) and any(_eq(r, e) for e in exps)):
+        raise Violation('dt(%r) = %r, expected %s (%s; today = %s by the clock readings taken right before and right after the call)' % (
+            arg, r, ' or '.join(repr(e) for e in exps), why, ' or '.join(str(t0.date()) for t0 in todays)))
+    cls = ['bump=' + bump[0]] + sorted('today:' + s for s in seen)          # 'today:...' depend on the day the check runs on: no floors
+    if len(todays) == 2:
+        cls.append('today:midnight_passed_during_the_call')
+    if bump[0] == 'td' and len(bump) > 4:
+        cls.append('pandas_timedelta')
+    if bump[0] == 'int':
+        cls.append('int<0' if bump[1] < 0 else 'int>=0')
+    nt = False
+    if bump[0] == 'tenor':
+        k = len(parts)
+        spelled = [fmt(*q) for q in parts]
+        units = set(q[1] for q in parts)
+        signs = set(1 if q[0] > 0 else -1 for q in parts if q[0])
+        cls.append('k=%i' % k)
+        if any(s[0] in '+-' for s in spelled[1:]):
+            cls.append('later_part_signed')                  # '1y-3m2d', '2w+3d': a part other than the first carries its own sign
+        if any(s[0] == '-' for s in spelled[1:]):
+            cls.append('later_part_minus')
+        if any(s[0] == '+' for s in spelled[1:]):
+            cls.append('later_part_plus')
+        if k == 3 and spelled[2][0] in '+-' and spelled[1][0] not in '+-':
+            cls.append('only_last_part_signed')
+        if k > 1 and spelled[0][0] in '+-' and not any(s[0] in '+-' for s in spelled[1:]):
+            cls.append('only_leading_sign')
+        if k > 1 and not any(s[0] in '+-' for s in spelled):
+            cls.append('unsigned_compound')
+        if len(signs) == 2:
+            cls.append('mixed_sign')
+        if units & set(MONTHS):
+            cls.append('has_month')
+        if 'b' in units:
+            cls.append('has_b')
+        if units & set('hns'):
+            cls.append('has_intraday_unit')
+        if any(q[2] & 4 for q in parts):
+            cls.append('zero_padded')
+        if any(q[2] & 2 for q in parts):
+            cls.append('upper_case_unit')
+        if k > 1 and any(q[0] == 0 for q in parts):
+            cls.append('zero_part')
+        if k > 1 and _order_matters(todays[0], [0, 0], parts, exps[0]):
+            cls.append('today:order_matters')
+        nt = k > 1
+    return dict(nt=nt, cls=cls)
+
+
 # ============================================================================= registration
 
 SUBS = [
@@ -1360,13 +1517,15 @@ SUBS = [
     Sub('compound', lambda tier: _compound_case(), run_compound, quick=6000, thorough=30000,
         rule='two- and three-part tenors over all nine unit letters, n in [-60,60] each, optional + / upper case per part, as one string or as separate bumps, '
              'as one list argument (list left unchanged, also after the sibling call) or as bumps of mixed types (str / int / numpy int / timedelta / pandas Timedelta) passed separately or inside the one list, through dt_bump and dt; '
+             'half of the three-part cases of the separate-strings / list-of-strings forms pass TWO tenor strings, one of them itself a two-part tenor, mostly with its own sign inside ("1y-3m", "2d" / "1y", "2d+3b"); '
              'a share with a part repeated verbatim (adjacent or first == last), with zero parts, and with a sibling start on the same date; zone-aware starts (tenors without a month-based part) and starts near the ends of the cycle as in bday; '
              'oracle: left fold of the single-part oracles. non-trivial = parts of both signs',
         floor=0.2, class_floors={'has_month': 0.3, 'has_b': 0.15, 'k=3': 0.3, 'month_overflow': 0.006, 'b_from_weekend': 0.03, 'later_part_negative': 0.3,
                                  'duplicate_part': 0.06, 'duplicate_first_last': 0.01, 'zero_part': 0.04, 'order_matters': 0.08, 'bump_types_mixed': 0.06,
                                  'non_string_bump_first': 0.02, 'how=list': 0.03, 'how=dt_list': 0.03, 'sibling_same_second': 0.1, 'sibling_other_time': 0.03,
                                  'how=list_mixed': 0.02, 'how=dt_list_mixed': 0.02, 'list_of_mixed_types': 0.038, 'pandas_timedelta': 0.03, 'start_feb28_nonleap': 0.009, 'start_feb29': 0.0045, 'start_dec31': 0.007, 'start_jan1': 0.06, 'start_30_31': 0.055, 'raw_start': 0.033, 'raw_start=Timestamp': 0.01, 'raw_start=datetime64': 0.008, 'raw_start=date': 0.012, 'zero_padded': 0.07,
-                                 'zone_aware_start': 0.02, 'zone_aware_utc_date_differs': 0.013, 'result_outside_cycle': 0.05}),
+                                 'zone_aware_start': 0.02, 'zone_aware_utc_date_differs': 0.013, 'result_outside_cycle': 0.05,
+                                 'grouped_tenor_args': 0.032, 'grouped_tenor_inner_sign': 0.028, 'grouped_tenors_in_list': 0.016}),
     EnumSub('compound_grid', enum_compound_grid, run_compound_grid, strategy=lambda tier: _compound_grid_quick(), quick=60, chunks=32,
             rule='ALL two-part tenors (81 ordered unit pairs x 121^2 values of n) from 4 starts each, and all 729 ordered unit triples x 9^3 values of n from 8 starts each '
                  '(one evaluation = one unit sequence and start with all its n combinations; an h/n/s part in front of a month-based part is restricted to whole days: '
@@ -1379,4 +1538,10 @@ SUBS = [
              'of the single-part oracles from its own start, so no result may depend on an earlier call; zone-aware start objects when no bump of the pool is month-based. non-trivial = two consecutive calls from the same start object with different expected results',
         floor=0.18, class_floors={'shared_list': 0.12, 'shared_list_edited_between_calls': 0.07, 'option_keyword': 0.07, 'option_aggregate': 0.055, 'option_dialect': 0.014, 'option_tzinfo': 0.003, 'keyword_first_then_plain': 0.07, 'empty_list': 0.011, 'one_bump_in_a_list': 0.057, 'list_of_mixed_types': 0.05, 'no_bump': 0.033, 'same_bump_object_twice': 0.09, 'prefix_of_previous_call': 0.08, 'extends_previous_call': 0.12, 'permutation_of_previous_call': 0.09, 'permutation_changes_result': 0.012, 'same_bumps_again': 0.064, 'other_start_object': 0.063, 'pandas_timedelta': 0.048, 'one_call_form_throughout': 0.16, 'raw_start': 0.03, 'calls=4': 0.054, 'start_feb28_nonleap': 0.007, 'start_feb29': 0.003, 'start_dec31': 0.0055, 'start_jan1': 0.05, 'start_30_31': 0.054,
                                   'zone_aware_start': 0.028, 'zone_aware_utc_date_differs': 0.016, 'result_outside_cycle': 0.045, 'default_spelled_out': 0.036}),
+    Sub('today', lambda tier: _today_case(), run_today, quick=1500, thorough=3000,
+        rule='the one-argument form dt(bump): the bump is applied to TODAY (midnight of the local date). Bump = a tenor string of 1-3 parts over all nine unit letters, n in [-60,60] each, every part with its own '
+             'optional + / - sign, upper case, zero padding (so most compound tenors carry a sign inside: "1y-3m2d", "2w+3d"), a python int, or a timedelta / pandas Timedelta. The library reads the wall clock, so the harness '
+             'reads it right before and right after the call and accepts the left fold of the single-part oracles from midnight of either reading (they differ only when midnight passes in between): only the tenor grammar and '
+             'the arithmetic are judged. Classes named today:... depend on the day of the run and carry no floor. non-trivial = a tenor of two or three parts',
+        floor=0.4, class_floors={'bump=tenor': 0.3, 'bump=int': 0.006, 'int<0': 0.003, 'bump=td': 0.02, 'pandas_timedelta': 0.01, 'k=1': 0.014, 'k=2': 0.1, 'k=3': 0.18, 'later_part_signed': 0.25, 'later_part_minus': 0.17, 'later_part_plus': 0.11, 'only_last_part_signed': 0.02, 'only_leading_sign': 0.013, 'unsigned_compound': 0.015, 'mixed_sign': 0.1, 'has_month': 0.16, 'has_b': 0.08, 'has_intraday_unit': 0.12, 'zero_padded': 0.06, 'upper_case_unit': 0.2, 'zero_part': 0.075}),
 ]
